@@ -91,5 +91,12 @@ meta = {
     "checks": det,
     "detected_by": res["detected_by"],
 }
+if os.path.exists(os.path.join(dst, "meta.json")):
+    try:
+        prev = json.load(open(os.path.join(dst, "meta.json")))
+        if prev.get("history"):
+            meta["history"] = prev["history"]
+    except Exception:
+        pass
 json.dump(meta, open(os.path.join(dst, "meta.json"), "w"), indent=1)
 print(json.dumps(res, indent=1))
